@@ -79,6 +79,8 @@ def catalogue(g, rng):
     if g.consts:
         cat.append(('missing-category-export', lambda site: (copy.deepcopy(g), dict(drop_val=True))))
         cat.append(('operation-not-in-parameter-category', lambda site: (copy.deepcopy(g), dict(box_plus=True))))
+        # the required export is defined only under a condition the category does not have (seeded change C06-conditional-export-check)
+        cat.append(('category-export-defined-only-conditionally', lambda site: (copy.deepcopy(g), dict(cond_val=True))))
     return cat
 
 def main():
